@@ -234,7 +234,7 @@ def tla_input(trs, alphabet, maxlen, policies):
         nodes = []
         for n in t["nodes"]:
             nodes.append({"names": n["names"], "path": n["path"], "prog": g.prog_tla(n["prog"]), "ast": n["ast"],
-                          "hasgrp": g.has(n["ast"], "grp"), "hasend": g.has(n["ast"], "end"), "subs": [i + 1 for i in n["subs"]], "action": n["action"]})
+                          "hasgrp": g.has(n["ast"], "grp"), "hasend": g.has(n["ast"], "end"), "subs": [i + 1 for i in n["subs"]], "action": n["action"], "policy": n.get("policy", "")})
         ver = []
         if t["version"]:
             ver = [("-" if len(x) == 1 else "--") + x for x in t["version"].split()]
@@ -287,7 +287,7 @@ def judge(c, r):
     out = []
     if r.get("hang") or r.get("crash"):
         return [("routing", "hang/crash %s" % r)]
-    kind, path, pol = c["kind"], c["path"], c.get("node_policy") or c["policy"]
+    kind, path, pol = c["kind"], c["path"], c.get("npolicy") or c["policy"]    # npolicy: CmdTree.tla's policy of the acting command
     if kind == "run":
         if r["log"] != expected_log(path):
             out.append(("routing", "hooks/actions ran %s, specification says %s" % (r["log"], expected_log(path))))
